@@ -83,7 +83,18 @@ def events(names):
             ev.append(('decl', k, n))
         for ns in ('ord', 'tag', 'goto'):
             ev.append(('use', ns, n))
+        ev += TAG_EXTRA(n)
     return ev
+
+
+def TAG_EXTRA(n):
+    """forward declarations `struct n;`, captures `typedef struct n *capK;` and uses of the captured type"""
+    return [('decl', 'sfwd', n), ('decl', 'ufwd', n), ('capture', n), ('use', 'cap', n)]
+
+
+def tag_events(n):
+    """sub-alphabet around tags only (for the deeper tag stratum)"""
+    return [('{',), ('}',), ('decl', 'stag', n), ('decl', 'utag', n), ('use', 'tag', n)] + TAG_EXTRA(n)
 
 
 class Scope:
@@ -95,7 +106,7 @@ class Scope:
 def model(hist):
     """Reference model: returns (program lines, expected) where expected is the list of (chk index, value)
     for a valid program, or a frozenset of reasons why the program is invalid:
-    'undeclared-use' / 'undefined-label' (a use that denotes no entity: C16 requires rejection),
+    'undeclared-use' / 'undefined-label' / 'incomplete-use' (a use that denotes no (complete) entity: must be rejected),
     'redecl' / 'dup-label' (constraint violations that are property C10's business, not judged here)."""
     scopes = [Scope()]
     labels = None       # set of labels defined in the current function
@@ -103,6 +114,7 @@ def model(hist):
     lines = []
     expect = []
     why = set()
+    caps = []
     uid = 10
     nfun = 0
     nchk = 0
@@ -149,10 +161,24 @@ def model(hist):
                 labels.add(n)
                 lines.append('%s: ;' % n)
                 continue
+            if k in ('sfwd', 'ufwd'):
+                kk = 'stag' if k == 'sfwd' else 'utag'
+                old = sc.tag.get(n)
+                if old is None:
+                    sc.tag[n] = [kk, None]       # new incomplete type that hides any outer tag (6.7.2.3p7)
+                elif old[0] != kk:
+                    why.add('redecl')            # wrong kind of tag
+                lines.append('%s %s;' % ('struct' if kk == 'stag' else 'union', n))
+                continue
             if k in ('stag', 'utag'):
-                if n in sc.tag:
+                old = sc.tag.get(n)
+                if old is not None and old[1] is None and old[0] == k:
+                    old[1] = uid                 # completes the type declared earlier in this scope
+                elif old is not None:
                     why.add('redecl')
-                sc.tag[n] = (k, uid)
+                    sc.tag[n] = [k, uid]
+                else:
+                    sc.tag[n] = [k, uid]
                 lines.append('%s %s { char m[%d]; };' % ('struct' if k == 'stag' else 'union', n, uid))
                 continue
             if n in sc.ord:
@@ -164,8 +190,34 @@ def model(hist):
                 lines.append('typedef char %s[%d];' % (n, uid))
             else:
                 lines.append('%schar (*%s)[%d];' % ('static ' if depth == 0 else '', n, uid))
+        elif e[0] == 'capture':
+            n = e[1]
+            found = None
+            for sc in reversed(scopes):
+                if n in sc.tag:
+                    found = sc.tag[n]
+                    break
+            if found is None:
+                found = scopes[-1].tag[n] = ['stag', None]   # `struct n *` declares the tag here (6.7.2.3p8)
+            ncap = len(caps) + 1
+            caps.append((len(scopes), scopes[-1], found, ncap))
+            lines.append('typedef %s %s *cap%d;' % ('struct' if found[0] == 'stag' else 'union', n, ncap))
         else:
             ns, n = e[1], e[2]
+            if ns == 'cap':
+                nchk += 1
+                live = [cp for cp in caps if cp[1] in scopes]
+                if not live:
+                    why.add('undeclared-use')
+                    lines.append(('CHK', nchk, 'sizeof(*(cap0)0)', 0))
+                    continue
+                _, _, ent, ncap = live[-1]
+                if ent[1] is None:
+                    why.add('incomplete-use')
+                lines.append(('CHK', nchk, 'sizeof(*(cap%d)0)' % ncap, ent[1] or 0))
+                if ent[1] is not None:
+                    expect.append((nchk, ent[1]))
+                continue
             if ns == 'goto':
                 if depth == 0:
                     return None, None
@@ -195,6 +247,9 @@ def model(hist):
                     ex = 'sizeof(struct %s)' % n
                 else:
                     ex = 'sizeof(%s %s)' % ('struct' if found[0] == 'stag' else 'union', n)
+                    if found[1] is None:
+                        why.add('incomplete-use')
+                        found = None
             lines.append(('CHK', nchk, ex, found[1] if found else 0))
             if found:
                 expect.append((nchk, found[1]))
@@ -225,8 +280,8 @@ def render(lines, asserts=False):
 _chk_re = re.compile(rb'data \$(?:\.L)?chk_(\d+)(?:\.\d+)? = align \d+ \{ w (\d+), \}')
 
 
-def histories(names, maxlen):
-    ev = events(names)
+def histories(names, maxlen, ev=None):
+    ev = ev or events(names)
 
     def rec(prefix, depth):
         if prefix:
@@ -275,10 +330,11 @@ def _scope_job(batch):
 def k3_scoping(chk):
     stats = dict(evaluations=0, expected_reject=0, with_uses=0, ambiguous=0, handed_to_c10=0)
     samples = []
-    plans = [(('a',), 4), (NAMES, 3)] if chk.quick else [(('a',), 6), (NAMES, 4)]
-    for names, maxlen in plans:
+    plans = [(('a',), 4, None), (('a',), 5, tag_events('a')), (NAMES, 3, None)] if chk.quick else \
+        [(('a',), 5, None), (('a',), 6, tag_events('a')), (NAMES, 4, None)]
+    for names, maxlen, evs in plans:
         batch, batches = [], []
-        for h in histories(names, maxlen):
+        for h in histories(names, maxlen, evs):
             batch.append(h)
             if len(batch) == 400:
                 batches.append(batch)
@@ -300,7 +356,7 @@ def k3_scoping(chk):
             if chk.expired():
                 break
         if len(samples) < 4:
-            h = next(x for x in histories(names, maxlen) if len(x) == maxlen and any(e[0] == 'use' for e in x))
+            h = next(x for x in histories(names, maxlen, evs) if len(x) == maxlen and any(e[0] == 'use' for e in x))
             lines, expect = model(h)
             samples.append({'history': [' '.join(e) for e in h], 'program': render(lines), 'expected': expect})
         # two-witness rule: gcc must agree with the reference model before anything is reported
